@@ -146,6 +146,27 @@ fn pair_ctor(k: u8, a: Term, b: Term) -> Term {
         _ => Term::new_equivalence_predictive(a, b),
     }
 }
+fn pair_variant(k: u8, a: Term, b: Term) -> Term {
+    let (a, b) = (Box::new(a), Box::new(b));
+    match k {
+        P_DIFF_EXT => Term::DifferenceExtension(a, b),
+        P_DIFF_INT => Term::DifferenceIntension(a, b),
+        P_INH => Term::Inheritance(a, b),
+        P_IMPL => Term::Implication(a, b),
+        P_IMPL_PRED => Term::ImplicationPredictive(a, b),
+        P_IMPL_CONC => Term::ImplicationConcurrent(a, b),
+        P_IMPL_RETRO => Term::ImplicationRetrospective(a, b),
+        _ => Term::EquivalencePredictive(a, b),
+    }
+}
+fn sym_variant(k: u8, a: Term, b: Term) -> Term {
+    let (a, b) = (Box::new(a), Box::new(b));
+    match k {
+        Y_SIM => Term::Similarity(a, b),
+        Y_EQUIV => Term::Equivalence(a, b),
+        _ => Term::EquivalenceConcurrent(a, b),
+    }
+}
 fn sym_ctor(k: u8, a: Term, b: Term) -> Term {
     match k {
         Y_SIM => Term::new_similarity(a, b),
@@ -435,7 +456,8 @@ fn core(d: &Desc, ch: &mut Choices, st: &mut RStats, rp: &RealiseParams) -> Term
         }
         Desc::Image(k, i, kids) => {
             let mut items: Vec<Term> = kids.iter().map(|x| realise(x, ch, st, rp)).collect();
-            match ch.weighted(&[50, 25, 25]) {
+            let has_ph = kids.iter().any(|x| matches!(x, Desc::Placeholder));
+            match ch.weighted(&[50, if has_ph { 0 } else { 25 }, 25]) {
                 0 => {
                     st.route_ctor += 1;
                     match *k {
@@ -463,7 +485,16 @@ fn core(d: &Desc, ch: &mut Choices, st: &mut RStats, rp: &RealiseParams) -> Term
                 }
             }
         }
-        Desc::Neg(a) => Term::new_negation(realise(a, ch, st, rp)),
+        Desc::Neg(a) => {
+            let x = realise(a, ch, st, rp);
+            if ch.chance(1, 4) {
+                // assembled directly from the public enum variant
+                st.route_handbuilt += 1;
+                Term::Negation(Box::new(x))
+            } else {
+                Term::new_negation(x)
+            }
+        }
         Desc::Pair(k, a, b) => {
             // derived constructors that denote the same term
             if *k == P_INH {
@@ -499,14 +530,25 @@ fn core(d: &Desc, ch: &mut Choices, st: &mut RStats, rp: &RealiseParams) -> Term
                 st.route_derived_ctor += 1;
                 return Term::new_equivalence_retrospective(y, x);
             }
+            if ch.chance(1, 4) {
+                st.route_handbuilt += 1;
+                return pair_variant(*k, x, y);
+            }
             pair_ctor(*k, x, y)
         }
         Desc::Sym(k, a, b) => {
             let x = realise(a, ch, st, rp);
             let y = realise(b, ch, st, rp);
-            if rp.reorder && ch.chance(1, 2) {
+            let (x, y) = if rp.reorder && ch.chance(1, 2) {
                 st.sym_swap += 1;
-                sym_ctor(*k, y, x)
+                (y, x)
+            } else {
+                (x, y)
+            };
+            if ch.chance(1, 3) {
+                // assembled directly from the public enum variant (no constructor in between)
+                st.route_handbuilt += 1;
+                sym_variant(*k, x, y)
             } else {
                 sym_ctor(*k, x, y)
             }
